@@ -4,7 +4,7 @@ use rusty_common::*;
 use rusty_parser::{AsBareName, Expression, ExpressionPos, Operator, TypeQualifier, UnaryOperator};
 use rusty_variant::{Variant, qb_and, qb_or};
 
-use crate::core::{LintError, LintErrorPos, QBNumberCast};
+use crate::core::{LintError, LintErrorPos, QBNumberCast, qb_divide};
 
 /// A lookup map of resolved constant values.
 pub trait ConstLookup {
@@ -77,6 +77,10 @@ where
                 if matches!(*op, Operator::And | Operator::Or) {
                     // like AND / OR at run time, the operands are first converted to INTEGER
                     return eval_logical(*op, v_left, v_right).map_err(|e| e.at(right));
+                }
+                if *op == Operator::Divide {
+                    // like `/` at run time, the operands are first converted to the type of the quotient
+                    return qb_divide(v_left, v_right).map_err(|e| e.at(right));
                 }
                 (match *op {
                     Operator::Less => v_left
